@@ -283,6 +283,9 @@ META = (META[0] + ' L2d (a single-slot owner does not destroy its object twice o
 META = (META[0] + ' FOREIGNSIZE (a raw size store through another object or an alias is preceded by a destroying call on that object).', META[1])
 
 
+META = (META[0] + ' TRAITREF (no property trait such as is_trivially_destructible is asked of decltype(*it), a reference type for which it is vacuously true; controls in fixtures/extra10_pos.hpp).', META[1])
+
+
 def run(chk, tier):
     db = D.load("checks")
     sigs = L.slot_signatures(db)
@@ -315,6 +318,10 @@ def run(chk, tier):
     trivreq_rule(chk)
     from ..rules import extra8 as _X8
     _X8.foreign_size_area(chk, D.load('plain'), ['_vector/', '_inplace_vector/'])      # FOREIGNSIZE (zero expected on the library)
+    from ..rules import extra10 as _X10
+    if _X10.trait_of_reference_area(chk, D.load('checks'), ['_memory/', '_vector/', '_inplace_vector/', '_optional/', '_variant/', '_expected/', '_array/']) < 80:      # TRAITREF (zero expected)
+        chk.analysis_broken('TRAITREF: fewer than 80 function bodies scanned (floor 80)')
+    _X10.positive_controls(chk, D, ('TRAITREF',))
     # ENGAGE (shared with C07): an optional built or assigned from another optional dereferences either side only where it
     # was tested to hold a value -- assigning through `**this` on disengaged storage starts no lifetime
     from . import c07 as _c07
